@@ -54,6 +54,8 @@ type Recorder struct {
 	Nested   int            // nested library calls made
 	Panicked int            // planned panics raised
 	Bad      string         // first anomaly seen inside a callback
+	Self     fnType         // the parsed function being evaluated (re-entered by yf/ya now and then)
+	depth    int
 }
 
 func (r *Recorder) reset(f [nFuncs]uint64) {
